@@ -1,7 +1,7 @@
 (* QueryParse.v — filters over a query in disjunctive form, [?( b && b ... || b && b ... )], through the regenerated
    grammar: query is andQuery (|| andQuery)*, andQuery is basicQuery (&& basicQuery)*; a basic query here is an
    existence test @steps, its negation !@steps, or a comparison @steps OP number.  No blanks inside. *)
-From JP Require Import Peg Grammar Text Tree Actions PegFacts PegMono PegEv FuelRules ParseFacts KeyDefs KeyParse IdxParse SliceParse UnionParse WildParse RecParse ChainParse SpacePath FunParse AggParse Frame FiltParse CmpParse NegFilt NoDollar.
+From JP Require Import Peg Grammar Text Tree Actions PegFacts PegMono PegEv FuelRules ParseFacts KeyDefs KeyParse IdxParse SliceParse UnionParse WildParse RecParse ChainParse SpacePath FunParse AggParse Frame FiltParse CmpParse NegFilt LitParse NoDollar.
 From Coq Require Import Lia.
 Local Open Scope N_scope.
 Open Scope list_scope.
@@ -10,13 +10,17 @@ Definition bq_ok (b : bq) : bool :=
   match b with
   | BE i | BN i => forallb rstep_ok i
   | BC i o lit => forallb rstep_ok i && negb (steps_vg i) && lit_ok lit
+  | BL i ne l => forallb rstep_ok i && negb (steps_vg i) && litv_ok l
   end.
+Definition eq_text (ne : bool) : list N := if ne then [33; 61] else [61; 61].
 Definition bq_tokens (pos : nat) (b : bq) : list token :=
   match b with
   | BE i => [TAct 38] ++ inner_tokens pos i ++ [TAct 39; TText pos (pos + 1 + List.length (render_steps i)); TAct 27]
   | BN i => [TAct 38] ++ inner_tokens (pos + 1) i ++ [TAct 39; TText pos (pos + 2 + List.length (render_steps i)); TAct 27]
   | BC i o lit => cmp39_tokens pos i o lit ++
                   [TText pos (pos + (1 + List.length (render_steps i) + List.length (op_text o) + List.length lit)); TAct 26]
+  | BL i ne l => left43_tokens pos i ++ litv_tokens (pos + 1 + List.length (render_steps i) + 2) l ++ [TAct 35; TAct (if ne then 29%nat else 28%nat)] ++
+                 [TText pos (pos + (1 + List.length (render_steps i) + 2 + List.length (litv_text l))); TAct 26]
   end.
 
 Lemma bq_text_len b : List.length (bq_text b) =
@@ -24,15 +28,16 @@ Lemma bq_text_len b : List.length (bq_text b) =
   | BE i => (1 + List.length (render_steps i))%nat
   | BN i => (2 + List.length (render_steps i))%nat
   | BC i o lit => (1 + List.length (render_steps i) + List.length (op_text o) + List.length lit)%nat
+  | BL i ne l => (1 + List.length (render_steps i) + 2 + List.length (litv_text l))%nat
   end.
-Proof. destruct b as [i|i|i o lit]; cbn [bq_text List.length]; rewrite ?app_length; lia. Qed.
+Proof. destruct b as [i|i|i o lit|i ne l]; cbn [bq_text List.length]; rewrite ?app_length; try lia. destruct ne; cbn [List.length]; lia. Qed.
 Lemma bq_head b : exists x r, bq_text b = x :: r /\ x <> 32.
-Proof. destruct b as [i|i|i o lit]; cbn [bq_text]; eexists _, _; (split; [reflexivity|discriminate]). Qed.
+Proof. destruct b as [i|i|i o lit|i ne l]; cbn [bq_text]; eexists _, _; (split; [reflexivity|discriminate]). Qed.
 
 Lemma ev35_bq b c t pos : bq_ok b = true -> qend c ->
   evG (PRef 35) (bq_text b ++ c :: t) pos (POk (c :: t) (pos + List.length (bq_text b)) (bq_tokens pos b)).
 Proof.
-  intros Hb Hq. rewrite bq_text_len. destruct b as [i|i|i o lit]; cbn [bq_ok bq_text bq_tokens app] in *.
+  intros Hb Hq. rewrite bq_text_len. destruct b as [i|i|i o lit|i ne l]; cbn [bq_ok bq_text bq_tokens app] in *.
   - eapply ev_conv.
     + eapply ev_ref; [reflexivity|].
       apply ev_alt_r; [apply ev_seq_fail; eapply ev_ref; [reflexivity|]; apply ev_seq_fail; apply (ev_lit_fail G [40]); reflexivity|].
@@ -63,6 +68,58 @@ Proof.
       replace (pos + 1 + List.length (render_steps i) + List.length (op_text o) + List.length lit)%nat
         with (pos + (1 + List.length (render_steps i) + List.length (op_text o) + List.length lit))%nat by lia.
       rewrite <- !app_assoc. reflexivity.
+  - apply andb_true_iff in Hb. destruct Hb as [Hb Hl]. apply andb_true_iff in Hb. destruct Hb as [Hs _].
+    destruct (litv_head l Hl) as (x & xr & Ex & Hx32 & _).
+    set (L := List.length (render_steps i)).
+    assert (Hgen : forall c1 act, (c1 = 33 /\ act = 29%nat \/ c1 = 61 /\ act = 28%nat) ->
+              evG (PRef 35) (64 :: render_steps i ++ c1 :: 61 :: litv_text l ++ c :: t) pos
+                  (POk (c :: t) (pos + (1 + L + 2 + List.length (litv_text l)))
+                       (left43_tokens pos i ++ litv_tokens (pos + 1 + L + 2) l ++ [TAct 35; TAct act] ++
+                        [TText pos (pos + (1 + L + 2 + List.length (litv_text l))); TAct 26]))).
+    { intros c1 act Hcase.
+      assert (Hc1 : closer c1 /\ c1 <> 32) by (destruct Hcase as [[E _]|[E _]]; subst c1; (split; [unfold closer; repeat split; try reflexivity; discriminate|discriminate])).
+      destruct Hc1 as [Hc1 Hc32].
+      assert (E43 := ev_rule43_c i c1 (61 :: litv_text l ++ c :: t) pos Hs Hc1).
+      assert (Eright : evG (PSeq (PRef 58) (PSeq (PRef 40) (PAct act))) (litv_text l ++ c :: t) (pos + 1 + L + 2)
+                           (POk (c :: t) (pos + 1 + L + 2 + List.length (litv_text l)) (litv_tokens (pos + 1 + L + 2) l ++ [TAct 35; TAct act]))).
+      { eapply ev_conv.
+        - assert (Esp : forall q rest, evG (PRef 58) (litv_text l ++ rest) q (POk (litv_text l ++ rest) q []))
+            by (intros q rest; rewrite Ex; cbn [app]; apply ev_space_stop; exact Hx32).
+          eapply ev_seq_ok; [apply Esp| |reflexivity].
+          eapply ev_seq_ok; [|apply ev_act|reflexivity].
+          eapply ev_ref; [reflexivity|]. apply ev_alt_l. eapply ev_seq_ok; [apply (ev_rule42_litv l c t _ Hl)|apply ev_act|reflexivity].
+        - cbn [app]. rewrite <- !app_assoc. reflexivity. }
+      destruct Hcase as [[E1 E2]|[E1 E2]]; subst c1 act.
+      - eapply ev_conv.
+        + eapply ev_ref; [reflexivity|].
+          apply ev_alt_r; [apply ev_seq_fail; eapply ev_ref; [reflexivity|]; apply ev_seq_fail; apply (ev_lit_fail G [40]); reflexivity|].
+          apply ev_alt_l. eapply ev_seq_ok; [apply ev_cap|apply ev_act|reflexivity].
+          eapply ev_ref; [reflexivity|]. apply ev_alt_l.
+          eapply ev_seq_ok; [eapply ev_ref; [reflexivity|]; apply ev_alt_r; [apply ev_seq_fail; apply ev_rule42_at|exact E43]| |reflexivity].
+          eapply ev_seq_ok; [apply ev_space_stop; exact Hc32| |reflexivity].
+          apply ev_alt_r; [apply ev_seq_fail; apply (ev_lit_fail G [61; 61]); reflexivity|].
+          eapply ev_seq_ok; [apply (ev_lit_ok G [33; 61]); reflexivity|exact Eright|reflexivity].
+        + fold L. cbn [List.length Nat.add]. f_equal; try lia.
+          replace (pos + 1 + L + 2 + List.length (litv_text l))%nat with (pos + (1 + L + 2 + List.length (litv_text l)))%nat by lia.
+          repeat (progress (cbn [app]) || rewrite <- app_assoc || rewrite app_nil_r). reflexivity.
+      - eapply ev_conv.
+        + eapply ev_ref; [reflexivity|].
+          apply ev_alt_r; [apply ev_seq_fail; eapply ev_ref; [reflexivity|]; apply ev_seq_fail; apply (ev_lit_fail G [40]); reflexivity|].
+          apply ev_alt_l. eapply ev_seq_ok; [apply ev_cap|apply ev_act|reflexivity].
+          eapply ev_ref; [reflexivity|]. apply ev_alt_l.
+          eapply ev_seq_ok; [eapply ev_ref; [reflexivity|]; apply ev_alt_r; [apply ev_seq_fail; apply ev_rule42_at|exact E43]| |reflexivity].
+          eapply ev_seq_ok; [apply ev_space_stop; exact Hc32| |reflexivity].
+          apply ev_alt_l. eapply ev_seq_ok; [apply (ev_lit_ok G [61; 61]); reflexivity|exact Eright|reflexivity].
+        + fold L. cbn [List.length Nat.add]. f_equal; try lia.
+          replace (pos + 1 + L + 2 + List.length (litv_text l))%nat with (pos + (1 + L + 2 + List.length (litv_text l)))%nat by lia.
+          repeat (progress (cbn [app]) || rewrite <- app_assoc || rewrite app_nil_r). reflexivity. }
+    destruct ne.
+    + replace (64 :: (render_steps i ++ [33; 61] ++ litv_text l) ++ c :: t) with (64 :: render_steps i ++ 33 :: 61 :: litv_text l ++ c :: t)
+        by (cbn [app]; rewrite <- !app_assoc; reflexivity).
+      apply (Hgen 33 29%nat). left. split; reflexivity.
+    + replace (64 :: (render_steps i ++ [61; 61] ++ litv_text l) ++ c :: t) with (64 :: render_steps i ++ 61 :: 61 :: litv_text l ++ c :: t)
+        by (cbn [app]; rewrite <- !app_assoc; reflexivity).
+      apply (Hgen 61 28%nat). right. split; reflexivity.
 Qed.
 
 (* ---------- conjunctions ---------- *)
@@ -254,12 +311,22 @@ Section QueryExec.
   Definition qnum (lit : list N) : num := match parse_float (text_of lit) with Some f => f | None => Fin 0 0 end.
   Definition bq_okp (b : bq) : bool :=
     match b with BC _ _ lit => match parse_float (text_of lit) with Some _ => true | None => false end | _ => true end.
+  Definition litv_vd (l : litv) : validator := match l with LStr _ _ => VdString | LBool _ _ => VdBool | LNull _ => VdNil end.
+  Definition lit_cmp (i : list rstep) (l : litv) : query := QCmp (cmp_left cfg i) (CP (PqLit (litv_value l)) true) (CDirectEq (litv_vd l)).
   Definition bq_query (b : bq) : query :=
     match b with
     | BE i => QParam (filter_pq cfg i)
     | BN i => QNot (QParam (filter_pq cfg i))
     | BC i o lit => cmp_query cfg i o (qnum lit)
+    | BL i ne l => if ne then QNot (lit_cmp i l) else lit_cmp i l
     end.
+
+  Lemma unescape_plain q body : forallb (plain_for q) body = true -> unescape_cps body = body.
+  Proof.
+    induction body as [|x r IH]; [reflexivity|]. cbn [forallb]. intros H. apply andb_true_iff in H. destruct H as [H1 H2].
+    unfold plain_for in H1. apply andb_true_iff in H1. destruct H1 as [_ H92]. apply negb_true_iff in H92.
+    cbn [unescape_cps]. rewrite H92, (IH H2). reflexivity.
+  Qed.
 
   (* the operand between saveParams and loadParams, whatever is on the stack *)
   Lemma exec_operand input p i rest ps toks cps b : forallb rstep_ok i = true -> skipn p input = 64 :: render_steps i ++ rest ->
@@ -285,7 +352,7 @@ Section QueryExec.
   Lemma exec_bq input p b rest ps toks cps bg : bq_ok b = true -> bq_okp b = true -> skipn p input = bq_text b ++ rest ->
     exists cps' b', execute (bq_tokens p b ++ toks) input cps bg (mk ps) = execute toks input cps' b' (mk (ps ++ [IQuery (bq_query b)])).
   Proof.
-    intros Hb Hp Hin. destruct b as [i|i|i o lit]; cbn [bq_ok bq_okp bq_text bq_tokens bq_query] in *.
+    intros Hb Hp Hin. destruct b as [i|i|i o lit|i ne l]; cbn [bq_ok bq_okp bq_text bq_tokens bq_query] in *.
     - set (L := List.length (render_steps i)).
       replace (([TAct 38] ++ inner_tokens p i ++ [TAct 39; TText p (p + 1 + L); TAct 27]) ++ toks)
         with ([TAct 38] ++ inner_tokens p i ++ [TAct 39] ++ ([TText p (p + 1 + L); TAct 27] ++ toks))
@@ -357,6 +424,56 @@ Section QueryExec.
       assert (E26 : forall c0 b0, exec_action 26 c0 b0 (mk (ps ++ [IQuery (cmp_query cfg i o f)])) = AOk (mk (ps ++ [IQuery (cmp_query cfg i o f)]))).
       { intros c0 b0. cbn [Actions.exec_action]. rewrite pop_mk. cbn [abind]. destruct o; reflexivity. }
       rewrite E26. cbn [abind]. eexists _, _. reflexivity.
+    - apply andb_true_iff in Hb. destruct Hb as [Hb Hl]. apply andb_true_iff in Hb. destruct Hb as [Hs Hvg]. apply negb_true_iff in Hvg.
+      set (L := List.length (render_steps i)). set (M := List.length (litv_text l)).
+      unfold left43_tokens. fold L M.
+      assert (Hin' : skipn p input = 64 :: render_steps i ++ (if ne then [33; 61] else [61; 61]) ++ litv_text l ++ rest) by (rewrite Hin; cbn [app]; rewrite <- !app_assoc; reflexivity).
+      replace ((([TAct 38] ++ inner_tokens p i ++ [TAct 39; TText p (p + 1 + L); TAct 37]) ++
+                litv_tokens (p + 1 + L + 2) l ++ [TAct 35; TAct (if ne then 29%nat else 28%nat)] ++ [TText p (p + (1 + L + 2 + M)); TAct 26]) ++ toks)
+        with ([TAct 38] ++ inner_tokens p i ++ [TAct 39] ++
+              ([TText p (p + 1 + L); TAct 37] ++ litv_tokens (p + 1 + L + 2) l ++ [TAct 35; TAct (if ne then 29%nat else 28%nat); TText p (p + (1 + L + 2 + M)); TAct 26] ++ toks))
+        by (repeat (progress (cbn [app]) || rewrite <- app_assoc); reflexivity).
+      rewrite (exec_operand input p i _ ps _ cps bg Hs Hin'). cbn [app Actions.execute].
+      assert (E37 : forall c0 b0, exec_action 37 c0 b0 (mk (ps ++ [IPQ (filter_pq cfg i); IBool false])) = AOk (mk (ps ++ [ICParam (cmp_left cfg i)]))).
+      { intros c0 b0. cbn [Actions.exec_action].
+        change (ps ++ [IPQ (filter_pq cfg i); IBool false]) with (ps ++ [IPQ (filter_pq cfg i)] ++ [IBool false]). rewrite app_assoc, pop_mk. cbn [abind].
+        rewrite pop_mk. cbn [abind]. unfold cmp_left, filter_pq. rewrite (operand_vg cfg), Hvg. reflexivity. }
+      rewrite E37. cbn [abind].
+      (* the literal, then action 35 *)
+      assert (Elit : exists c1 b1, forall toks1,
+                execute (litv_tokens (p + 1 + L + 2) l ++ TAct 35 :: toks1) input (sub_list input p (p + 1 + L)) p (mk (ps ++ [ICParam (cmp_left cfg i)])) =
+                execute toks1 input c1 b1 (mk ((ps ++ [ICParam (cmp_left cfg i)]) ++ [ICParam (CP (PqLit (litv_value l)) true)]))).
+      { destruct l as [q body|b0 sp|sp]; cbn [litv_tokens litv_value app Actions.execute].
+        - assert (Eb : sub_list input (p + 1 + L + 2 + 1) (p + 1 + L + 2 + 1 + List.length body) = body).
+          { pose proof (sub_at input p (1 + L + 2 + 1) ((64 :: render_steps i) ++ (if ne then [33; 61] else [61; 61]) ++ [q]) body ([q] ++ rest)) as H.
+            replace (p + (1 + L + 2 + 1))%nat with (p + 1 + L + 2 + 1)%nat in H by lia. apply H.
+            - rewrite Hin'. cbn [litv_text app]. rewrite <- !app_assoc. cbn [app]. reflexivity.
+            - unfold L. cbn [List.length app]. rewrite !app_length. destruct ne; cbn [List.length]; lia. }
+          rewrite Eb. cbn [litv_ok] in Hl. apply andb_true_iff in Hl. destruct Hl as [Hq Hbody].
+          eexists _, _. intros toks1.
+          assert (E4 : forall b1 st, exec_action (if q =? 39 then 43%nat else 44%nat) body b1 st = AOk (push (IStr (text_of body)) st)).
+          { intros b1 st. destruct (q =? 39); cbn [Actions.exec_action]; rewrite (unescape_plain q body Hbody); reflexivity. }
+          rewrite E4. cbn [abind].
+          change (push (IStr (text_of body)) (mk (ps ++ [ICParam (cmp_left cfg i)]))) with (mk ((ps ++ [ICParam (cmp_left cfg i)]) ++ [IStr (text_of body)])).
+          cbn [Actions.exec_action]. rewrite pop_mk. cbn [abind literal_of]. reflexivity.
+        - eexists _, _. intros toks1. destruct b0; cbn [litv_tokens app Actions.execute Actions.exec_action abind];
+            (match goal with |- context [push ?x (mk ?l0)] => change (push x (mk l0)) with (mk (l0 ++ [x])) end); rewrite pop_mk; reflexivity.
+        - eexists _, _. intros toks1. cbn [Actions.exec_action abind].
+          (match goal with |- context [push ?x (mk ?l0)] => change (push x (mk l0)) with (mk (l0 ++ [x])) end). rewrite pop_mk. reflexivity. }
+      destruct Elit as (c1 & b1 & Elit).
+      change (litv_tokens (p + 1 + L + 2) l ++ [TAct 35; TAct (if ne then 29%nat else 28%nat); TText p (p + (1 + L + 2 + M)); TAct 26] ++ toks)
+        with (litv_tokens (p + 1 + L + 2) l ++ TAct 35 :: ([TAct (if ne then 29%nat else 28%nat); TText p (p + (1 + L + 2 + M)); TAct 26] ++ toks)).
+      rewrite Elit. cbn [app Actions.execute].
+      assert (Eop : forall c0 b0, exec_action (if ne then 29%nat else 28%nat) c0 b0 (mk ((ps ++ [ICParam (cmp_left cfg i)]) ++ [ICParam (CP (PqLit (litv_value l)) true)])) =
+                                 AOk (mk (ps ++ [IQuery (if ne then QNot (lit_cmp i l) else lit_cmp i l)]))).
+      { intros c0 b0. assert (Epc : push_compare_eq (cmp_left cfg i) (CP (PqLit (litv_value l)) true) (mk ps) = mk (ps ++ [IQuery (lit_cmp i l)]))
+          by (destruct l; reflexivity).
+        destruct ne; cbn [Actions.exec_action]; unfold two_operands, pop_cparam; rewrite pop_mk; cbn [abind]; rewrite pop_mk; cbn [abind]; rewrite Epc; [|reflexivity].
+        unfold pop_query. rewrite pop_mk. reflexivity. }
+      rewrite Eop. cbn [abind].
+      assert (E26 : forall c0 b0 q, (q = lit_cmp i l \/ q = QNot (lit_cmp i l)) -> exec_action 26 c0 b0 (mk (ps ++ [IQuery q])) = AOk (mk (ps ++ [IQuery q]))).
+      { intros c0 b0 q [E|E]; subst q; cbn [Actions.exec_action]; rewrite pop_mk; reflexivity. }
+      rewrite E26 by (destruct ne; auto). cbn [abind]. eexists _, _. reflexivity.
   Qed.
 
   Definition conj_query (c : list bq) : query :=
